@@ -1739,6 +1739,9 @@ bool GennaroJareckiKrawczykRabinNTS::Verify
 
 	try
 	{
+		// 0. Check the range of $s$ (fast exponentiation is limited to $|q|$ bits)
+		if ((mpz_sgn(s) < 0) || (mpz_cmp(s, q) >= 0))
+			throw false;
 		// 1. Compute $r = g^s y^{-c} \bmod p$
 		tmcg_mpz_fpowm(fpowm_table_g, r, g, s, p);
 		mpz_powm(foo, y, c, p);
